@@ -42,6 +42,10 @@ class C08(Harness):
                     out.append({"name": "%s-%s-%s" % (base, "gib" if gib else "loss", "refit" if refit else "norefit"), "kind": base, "gib": gib, "refit": refit, "cost": 2})
             # a candidate that cannot forecast (NaN predictions, NaN mean score under an honest metric) is never the best
             out.append({"name": "plain-%s-refit-nan-candidate" % ("gib" if gib else "loss"), "kind": "plain", "gib": gib, "refit": True, "nan_candidate": True, "cost": 2})
+            # a splitter horizon with a gap (steps 1 and 3): the scores are taken over the splitter's test points only
+            out.append({"name": "%s-%s-refit-gapped" % ("pipeline" if gib else "plain", "gib" if gib else "loss"), "kind": "pipeline" if gib else "plain", "gib": gib, "refit": True, "gapped": True, "cost": 2})
+            # a candidate that replaces a pipeline step AND sets a nested parameter of that step
+            out.append({"name": "replace-%s-refit" % ("gib" if gib else "loss"), "kind": "replace", "gib": gib, "refit": True, "cost": 2})
             for base in ("plain", "randomized"):  # the evaluation strategy given to the tuner reaches evaluate()
                 out.append({"name": "%s-%s-refit-update-strategy" % (base, "gib" if gib else "loss"), "kind": base, "gib": gib, "refit": True, "strategy": "update", "cost": 2})
         return out
@@ -53,6 +57,8 @@ class C08(Harness):
         nn = int(n)
         iw = ctx.fresh_int("iw")
         ctx.assume((iw >= nn - 3) & (iw >= 1) & (iw <= nn - 1))
+        if cell.get("gapped"):
+            ctx.assume(iw + 3 <= nn)
         nc = ctx.fresh_int("nc")
         ctx.assume((nc >= 2) & (nc <= (3 if cell["kind"] == "plain" else 2)))
         nb = ctx.fresh_int("nb")
@@ -74,7 +80,7 @@ class C08(Harness):
         T, _ = make_transformer(W, log)
         n, s0, nc = inp["n"], inp["s0"], inp["nc"]
         y = pd.Series(inp["y"], index=pd.RangeIndex(s0, s0 + n))
-        cv = sp.ExpandingWindowSplitter(fh=1, initial_window=inp["iw"], step_length=1)
+        cv = sp.ExpandingWindowSplitter(fh=np.array([1, 3]) if cell.get("gapped") else 1, initial_window=inp["iw"], step_length=1)
         sc = make_score(W, gib=cell["gib"], honest_nan=bool(cell.get("nan_candidate")))
         if inp.get("wrapped_scorer"):
             # the library's own scorer wrapper around the same uninterpreted metric
@@ -89,6 +95,10 @@ class C08(Harness):
         elif kind == "pipeline":
             PIPE = W.load("sktime.forecasting.compose._pipeline").TransformedTargetForecaster
             base, grid = PIPE([("t", T(tag=1)), ("f", Member(p=0))]), {"f__p": ps}
+            cand_p = ps
+        elif kind == "replace":
+            PIPE = W.load("sktime.forecasting.compose._pipeline").TransformedTargetForecaster
+            base, grid = PIPE([("t", T(tag=1)), ("f", Member(p=0))]), {"f": [Member(p=0, q=7)], "f__p": ps}
             cand_p = ps
         elif kind == "multiplexer":
             MUX = W.load("sktime.forecasting.compose._multiplexer").MultiplexForecaster
@@ -118,10 +128,10 @@ class C08(Harness):
         gs.fit(y, fh=fh)
         res = gs.cv_results_
         out = {"means": [S(res["mean_test_stub"].iloc[i]) for i in range(len(res))], "params": [dict(res["params"].iloc[i]) for i in range(len(res))]}
-        out["params"] = [{k: S(v) for k, v in d.items()} for d in out["params"]]
+        out["params"] = [{k: (("member", S(v.q)) if hasattr(v, "get_params") else S(v)) for k, v in d.items()} for d in out["params"]]
         out["best_index"] = S(gs.best_index_)
         out["best_score"] = S(gs.best_score_)
-        out["best_params"] = {k: S(v) for k, v in dict(gs.best_params_).items()}
+        out["best_params"] = {k: (("member", S(v.q)) if hasattr(v, "get_params") else S(v)) for k, v in dict(gs.best_params_).items()}
         out["splits"] = [[L(a), L(b)] for a, b in cv.split(y)]
         out["fitlog"] = [e for e in log if e["op"] in ("fit", "update")]
         del log[:]
@@ -160,7 +170,7 @@ class C08(Harness):
         F = lambda p, c, l: W.uf("forecast", [p, c, l], "iii>r")  # noqa
         splits = out["splits"]
         # candidate -> member parameter
-        key = {"plain": "p", "pipeline": "f__p", "multiplexer": "selected_forecaster", "randomized": "p", "listgrid": "p", "mixedtypes": "p"}[kind]
+        key = {"plain": "p", "pipeline": "f__p", "multiplexer": "selected_forecaster", "randomized": "p", "listgrid": "p", "mixedtypes": "p", "replace": "f__p"}[kind]
         cands = out["params"]
         if kind == "randomized":
             P.check("candidates-enumerated", len(cands) == nc and all(set(d) == {"p"} and d["p"] in range(1, 6) for d in cands) and len({d["p"] for d in cands}) == nc)
@@ -168,6 +178,8 @@ class C08(Harness):
             P.check("candidates-enumerated", [d[key] for d in cands] == ["a", "b"][:nc])
         elif kind == "mixedtypes":
             P.check("candidates-enumerated", [(type(d[key]).__name__, d[key]) for d in cands] == [("int", 1), ("float", 1.0)], {"candidates": [repr(d.get(key)) for d in cands]})
+        elif kind == "replace":
+            P.check("candidates-enumerated", cands == [{"f": ("member", 7), "f__p": v} for v in range(1, nc + 1)])
         elif kind == "listgrid":
             P.check("candidates-enumerated", cands == [{"p": 1, "q": 5}] + [{"p": v} for v in range(2, nc + 1)])
         else:
@@ -182,8 +194,8 @@ class C08(Harness):
                 v = int(v)
             return {"a": 1, "b": 2}.get(v, v)
 
-        tf = (lambda v: W.uf("t", [1, v], "ir>r")) if kind == "pipeline" else (lambda v: v)
-        ti = (lambda v: W.uf("tinv", [1, v], "ir>r")) if kind == "pipeline" else (lambda v: v)
+        tf = (lambda v: W.uf("t", [1, v], "ir>r")) if kind in ("pipeline", "replace") else (lambda v: v)
+        ti = (lambda v: W.uf("tinv", [1, v], "ir>r")) if kind in ("pipeline", "replace") else (lambda v: v)
         means = []
         fitlog = out["fitlog"]
         nfold = len(splits)
@@ -203,6 +215,8 @@ class C08(Harness):
                     want_op = "update" if (cell.get("strategy") == "update" and f_i > 0) else "fit"
                     P.check("same-splits-for-every-candidate", e["who"] == p and len(e["idx"]) == len(tr))
                     P.check("evaluation-strategy-honoured", e["op"] == want_op, {"fold": f_i, "op": e["op"], "strategy": cell.get("strategy", "refit")})
+                    if kind == "replace":  # the replacement step (q = 7) carrying the candidate's nested value
+                        P.check("row-equals-independent-evaluate", e["q"] == 7, {"candidate": j, "q_seen": e["q"]})
                     if kind == "listgrid":  # every candidate = the base forecaster plus exactly its own parameters
                         P.check("row-equals-independent-evaluate", e["q"] == d.get("q", 0), {"candidate": j, "q_seen": e["q"]})
                     for lab, q, v in zip(e["idx"], tr, e["vals"]):
